@@ -190,6 +190,18 @@ def ensures_ok(ctx, body, guard_pred, depth=3, _stack=None):
         ok = True
     for r in succ:
         if not fv.must_pass(r["block"], edges):
+            # tail position `return callee(..)` where every callee ensures the guard
+            if r["kind"] == "maybe" and "call" in r and depth > 0:
+                c = r["call"]
+                n1 = c.callee.name if c.callee else ""
+                n2 = c.decl.name if c.decl else ""
+                if guard_pred(n1) or guard_pred(n2):
+                    continue
+                cal = [x for x in ctx.prog.possible_callees(c, body) if not is_test_util(x.name)]
+                if cal and all(x.d.local for x in cal) and \
+                   all(ensures_ok(ctx, x, guard_pred, depth - 1, _stack) for x in cal) and \
+                   any(_mentions_guard(ctx, x, guard_pred, depth) for x in cal):
+                    continue
             ok = False
             break
     cache[key] = ok
@@ -370,13 +382,43 @@ def cannot_succeed(ctx, body, assum, depth):
     key = (body.d.id, repr(assum), depth)
     if key in cache:
         return cache[key]
-    cache[key] = False
+    # co-inductive: a delegating wrapper (OnchainValidator -> inner dyn Validator) that re-enters itself
+    # through CHA succeeds only if some non-recursive implementation does
+    prog_set = ctx.__dict__.setdefault("_cs_inprogress", set())
+    pk = (body.d.id, repr(assum))
+    if pk in prog_set:
+        return True
+    prog_set.add(pk)
+    try:
+        return _cannot_succeed(ctx, body, assum, depth, cache, key)
+    finally:
+        prog_set.discard(pk)
+
+
+def _cannot_succeed(ctx, body, assum, depth, cache, key):
     fv = fnview(ctx, body)
     cut = atoms.scenario_cut(fv, assum)
     if depth > 0:
         cut |= _callee_refusal_cuts(ctx, fv, assum, depth)
     live = fv.reach(0, cut_edges=cut)
-    succ = [r for r in fv.success_sites() if r["block"] in live]
+    succ = []
+    for r in fv.success_sites():
+        if r["block"] not in live:
+            continue
+        if r["kind"] == "maybe" and "call" in r and depth > 0:
+            # tail position `return callee(..)`: succeeds only if the callee can
+            c = r["call"]
+            cal = [x for x in ctx.prog.possible_callees(c, body) if not is_test_util(x.name)]
+            if cal and all(x.d.local for x in cal):
+                allref = True
+                for x in cal:
+                    tr = translate_assumptions(fv, c, x, assum)
+                    if not cannot_succeed(ctx, x, tr, depth - 1):
+                        allref = False
+                        break
+                if allref:
+                    continue
+        succ.append(r)
     r = not succ
     cache[key] = r
     return r
@@ -502,3 +544,45 @@ def taint_escapes(fv, src_local, passthrough=(), sanitizers=("cmp::PartialEq",))
             elif kind == "switch":
                 pass
     return escapes, tainted
+
+
+def closure_calls(prog, cdef, pred, _seen=None):
+    """does the closure body (or closures nested in it) call something matching pred"""
+    _seen = _seen if _seen is not None else set()
+    if cdef.id in _seen or cdef.id not in prog.bodies:
+        return False
+    _seen.add(cdef.id)
+    b = prog.bodies[cdef.id]
+    for bi, c in b.calls():
+        n1 = c.callee.name if c.callee else ""
+        n2 = c.decl.name if c.decl else ""
+        if pred(n1) or pred(n2):
+            return True
+        for cd in c.cls:
+            if closure_calls(prog, cd, pred, _seen):
+                return True
+    return False
+
+
+def call_blocks_deep(ctx, fv, pred):
+    """call sites matching pred directly, or receiving a closure whose body calls pred
+    (catch_panic!, with_channel, map_err ...)"""
+    out = []
+    for bi, c in fv.b.calls():
+        n1 = c.callee.name if c.callee else ""
+        n2 = c.decl.name if c.decl else ""
+        if pred(n1) or pred(n2) or any(closure_calls(ctx.prog, cd, pred) for cd in c.cls):
+            out.append((bi, c.line, c))
+    return out
+
+
+def find_call_in_closures(ctx, body, pred):
+    """(closure_body, bi, call) for calls matching pred inside closures rooted at body"""
+    out = []
+    for cb in ctx.prog.closures_of(body):
+        for bi, c in cb.calls():
+            n1 = c.callee.name if c.callee else ""
+            n2 = c.decl.name if c.decl else ""
+            if pred(n1) or pred(n2):
+                out.append((cb, bi, c))
+    return out
